@@ -117,7 +117,8 @@ type World struct {
 	// right after a controller call on that resource failed, i.e. while the reconcile is
 	// still running - what a live informer does. Pod events are never delivered
 	// mid-reconcile so that the recorded snapshot stays the one the reconcile listed.
-	CatchUp bool
+	CatchUp         bool
+	CatchUpOneByOne bool
 }
 
 func (w *World) afterCall(c *simapi.Call) {
@@ -125,7 +126,13 @@ func (w *World) afterCall(c *simapi.Call) {
 		return
 	}
 	if c.Res == simapi.Sets || c.Res == simapi.PVCs {
-		w.Deliver(c.Res, -1)
+		// one event per failed call: successive retries of the same write see successive cache states
+		// (e.g. a deletion first, the re-creation one attempt later)
+		n := -1
+		if w.CatchUpOneByOne {
+			n = 1
+		}
+		w.Deliver(c.Res, n)
 	}
 }
 
@@ -176,6 +183,7 @@ func (w *World) Reset() {
 	w.Ctl.VerifSetQueue(w.Q)
 	w.recN = 0
 	w.CatchUp = false
+	w.CatchUpOneByOne = false
 }
 
 // Restart emulates a process restart: a new controller object, empty caches
